@@ -1774,12 +1774,6 @@ static bool check_c16(const Plan &p, const RunResult &r, std::string &oracle, st
 // ================================================================================================
 
 std::string plan_trigger(const Plan &p) {
-    if (p.prop == "C07" && p.scenario.compare(0, 6, "coding") == 0 && !p.conns.empty() && !p.conns[0].xchg.empty()) {
-        long cod = p.cfg.get("c07_coding", 0);
-        const Bytes *body = expect_get(p.conns[0].xchg[0], p.cfg.get("c07_side", 1) ? "@body.res" : "@body.req");
-        // a body announced as gzip/deflate that is not compressed and too short for the decoder to reject before the stream ends
-        if ((cod == 9 || cod == 10) && body && body->size() < 5) return "c07.short_plain_body_announced_as_compressed";
-    }
     if (p.prop == "C08") {
         std::string pat = c08_pattern_name(p);
         // many header lines with pairwise distinct names: every line is looked up linearly in the table of all earlier ones
